@@ -329,6 +329,31 @@ fn eval_cli(ctx: &Ctx, case: &CliCase) -> Verdict {
             None => {}
         }
     }
+    // the same statistics requested in another order in one invocation, and one at a time
+    {
+        let mut order: Vec<usize> = (0..stats.len()).collect();
+        order.reverse();
+        let r = (case.scale as usize) % stats.len().max(1);
+        order.rotate_left(r);
+        let shuffled: Vec<Stat> = order.iter().map(|&i| stats[i]).collect();
+        let got = cli_stats(ctx, &dir, &shuffled, "base.sfs", false)?;
+        for (k, &i) in order.iter().enumerate() {
+            let (a, b) = (base[i], got[k]);
+            ensure!(
+                a.to_bits() == b.to_bits() || (a.is_nan() && b.is_nan()),
+                "`sfs stat -s {}` reports {} = {b}, but `-s {}` reports {a} for the same spectrum (shape {:?})",
+                shuffled.iter().map(|s| s.cli()).collect::<Vec<_>>().join(","),
+                stats[i].cli(),
+                stats.iter().map(|s| s.cli()).collect::<Vec<_>>().join(","),
+                case.shape
+            );
+        }
+        for (i, st) in stats.iter().enumerate() {
+            let alone = cli_stats(ctx, &dir, &[*st], "base.sfs", false)?[0];
+            ensure!(alone.to_bits() == base[i].to_bits() || (alone.is_nan() && base[i].is_nan()), "`sfs stat -s {}` alone = {alone}, inside a list = {} (shape {:?})", st.cli(), base[i], case.shape);
+        }
+        compared += stats.len() as u64;
+    }
     // scaling
     let scaled = Spec::new(spec.shape.clone(), spec.values.iter().map(|v| v * case.scale as f64).collect());
     write("scaled.sfs", &scaled);
@@ -375,7 +400,7 @@ pub fn check(ctx: &Ctx) -> Check {
         }),
         Box::new(RandomPart {
             name: "cli-relations",
-            rule: "integer spectra through `sfs fold --fill zero | sfs stat` vs `sfs stat` directly, the scaling relation and the transposition relation through `sfs stat --precision 12` (the normalisation in front of f2/f3/f4/Fst lives in the CLI)",
+            rule: "integer spectra through `sfs fold --fill zero | sfs stat` vs `sfs stat` directly, the scaling relation and the transposition relation through `sfs stat --precision 12`, and every statistic requested alone, in a list, and in a differently ordered list of one invocation must print the same value (the normalisation in front of f2/f3/f4/Fst lives in the CLI)",
             cases: ctx.tier.pick(800, 20_000),
             strategy: Box::new(|| cli_strategy().boxed()),
             eval: Box::new(eval_cli),
